@@ -2,7 +2,7 @@
    Model: theories/Server.v; invariants over (state, all outputs so far) for every history and schedule. *)
 From Coq Require Import NArith List Bool Lia.
 Import ListNotations.
-From EIO Require Import Server ServerInv ServerProofs ServerCor.
+From EIO Require Import Server ServerInv ServerProofs ServerCor ServerReasons.
 Open Scope N_scope.
 
 (* the disconnect event is emitted at most once per session, whatever ends it and however the causes race *)
@@ -26,7 +26,35 @@ Theorem c05_begin_close : forall i r s ss, alookup i (store s) = Some ss ->
   begin_close i r s = (tt, set_store (aset i (w_closing true ss) (store s)) s, [OEvent i (EDisconnect r)]).
 Proof. exact begin_close_run. Qed.
 
+(* The reason of a disconnect event tells what ended the session.  One step of a task can only give the reasons of its kind:
+   a long poll 'transport error' (and the refusal that follows, as the server); a WebSocket handler 'client disconnect' (a CLOSE
+   packet), 'ping timeout' (a send that finds the peer dead), 'server disconnect' (a handler that disconnects) or, in its
+   epilogue, 'transport close'; the heartbeat and the monitor 'ping timeout'; disconnect() 'server disconnect'; the writer none. *)
+Theorem c05_reason_by_task : forall cfg me e s, Forall (among (rin (reasons_of (t_task e)))) (ServerReasons.outof (run_task cfg me e s)).
+Proof. exact task_reasons. Qed.
+(* ... a request on arrival never 'transport error' ... *)
+Theorem c05_reason_by_request : forall cfg me r q s, Forall (among (rin WS)) (ServerReasons.outof (handle_request cfg me r q s)).
+Proof. exact request_reasons. Qed.
+(* ... an application call: send() 'ping timeout', disconnect() 'server disconnect', the others nothing *)
+Theorem c05_reason_by_call : forall cfg me a x s,
+  Forall (among (rin (match x with ApiSend _ _ => [RPingTimeout] | ApiDisconnect _ => [RServer] | _ => [] end))) (ServerReasons.outof (run_api cfg me a x s)).
+Proof. exact api_reasons. Qed.
+(* 'client disconnect' only for a CLOSE packet of the client *)
+Theorem c05_client_disconnect_needs_close : forall cfg i p s,
+  Forall (among (rin (match p with CClose => [RClient] | _ => [RPingTimeout; RServer] end))) (ServerReasons.outof (receive cfg i p s)).
+Proof. exact receive_reason. Qed.
+(* 'ping timeout' from a send only if a PING has been outstanding for longer than ping_timeout *)
+Theorem c05_ping_timeout_only_if_expired : forall cfg i p s,
+  Exists (fun o => match o with OEvent _ (EDisconnect RPingTimeout) => True | _ => False end) (ServerReasons.outof (sock_send cfg i p s)) ->
+  expired cfg (match alookup i (store s) with Some x => x | None => new_sess end) (now s) = true.
+Proof. exact ping_timeout_only_if_expired. Qed.
+
 Print Assumptions c05_disconnect_once.
 Print Assumptions c05_disconnect_only_when_closing.
 Print Assumptions c05_nothing_after_close.
 Print Assumptions c05_begin_close.
+Print Assumptions c05_reason_by_task.
+Print Assumptions c05_reason_by_request.
+Print Assumptions c05_reason_by_call.
+Print Assumptions c05_client_disconnect_needs_close.
+Print Assumptions c05_ping_timeout_only_if_expired.
